@@ -185,6 +185,12 @@ func c13Check(t tb, bc behContext) {
 	for _, g := range d.Getters() {
 		mustOf[g.Getter] = g.Must
 	}
+	nilSvc := map[string]bool{} // services that are a nil interface at run time (hand-built members only; not modelled)
+	for _, l := range bc.M.Labels {
+		if strings.HasPrefix(l, "nil-service:") {
+			nilSvc[strings.TrimPrefix(l, "nil-service:")] = true
+		}
+	}
 	inconvertible := map[string]bool{} // services whose object cannot be converted to the declared getter type (hand-built members only)
 	for _, l := range bc.M.Labels {
 		if strings.HasPrefix(l, "inconvertible:") {
@@ -219,6 +225,18 @@ func c13Check(t tb, bc behContext) {
 				return
 			}
 			exp := d.Exec(ref.ProbeOp{Op: "get", ID: op.Tag, Ctx: op.Ctx})
+			if nilSvc[op.Tag] {
+				// nil converts to pointer / interface types and to nothing else
+				if !inconvertible[op.Tag] {
+					if got.Err != "" || got.Panic != "" {
+						violation(t, "getter:nil-service", fmt.Sprintf("getter %s of a nil service with a nillable type: unexpected error %q", op.ID, got.Err+got.Panic), bc.One)
+						return
+					}
+					col.Label("getter-nil-service-nillable-type")
+					continue
+				}
+				exp = ref.Exp{}
+			}
 			if exp.Skip {
 				continue
 			}
@@ -253,6 +271,16 @@ func c13Check(t tb, bc behContext) {
 				return
 			}
 			exp := d.Exec(ref.ProbeOp{Op: "get", ID: op.Tag, Ctx: op.Ctx})
+			if nilSvc[op.Tag] {
+				if !inconvertible[op.Tag] {
+					if got.Panic != "" {
+						violation(t, "must:nil-service", fmt.Sprintf("must-getter %s of a nil service with a nillable type panicked: %s", op.ID, got.Panic), bc.One)
+						return
+					}
+					continue
+				}
+				exp = ref.Exp{}
+			}
 			if exp.Skip {
 				continue
 			}
@@ -415,12 +443,15 @@ func TestC13(t *testing.T) {
 				{Name: "x", Ctor: sp("fx/lib.NewObj"), Getter: sp("GetX"), Type: sp("*fx/libx.Obj"), Must: bp(true)}, // the same type name in another package
 				{Name: "ok", Ctor: sp("fx/lib.NewObj"), Getter: sp("GetOk"), Type: sp("*fx/lib.Obj"), Must: bp(true)},
 				{Name: "any", Ctor: sp("fx/lib.NewVal"), Getter: sp("GetAny"), Must: bp(true)},
+				{Name: "nv", Ctor: sp("fx/lib.NewNil"), Getter: sp("GetNv"), Type: sp("fx/lib.Val"), Must: bp(true)},  // nil cannot become a struct value
+				{Name: "np", Ctor: sp("fx/lib.NewNil"), Getter: sp("GetNp"), Type: sp("*fx/lib.Obj"), Must: bp(true)}, // but a nil pointer
+				{Name: "ni", Ctor: sp("fx/lib.NewNil"), Getter: sp("GetNi"), Must: bp(true)},                          // and a nil interface{}
 			}}
 			if v == 1 {
 				conf.Meta.Type, conf.Meta.Ctor = sp("Box"), sp("NewBox")
 				conf.Services[0].Scope, conf.Services[1].Scope = sp("non_shared"), sp("contextual")
 			}
-			c.Members = append(c.Members, behMember{Files: []cfg.Config{conf}, Script: c13Script(conf), Labels: []string{"hand-built:getter-type-does-not-fit", "inconvertible:v", "inconvertible:o", "inconvertible:x"}})
+			c.Members = append(c.Members, behMember{Files: []cfg.Config{conf}, Script: c13Script(conf), Labels: []string{"hand-built:getter-type-does-not-fit", "inconvertible:v", "inconvertible:o", "inconvertible:x", "inconvertible:nv", "nil-service:nv", "nil-service:np", "nil-service:ni"}})
 		}
 		behBatch(t, c, c13NonTrivial, c13Check, nil)
 	}
